@@ -356,15 +356,31 @@ func c17TrieOracleRound(c *Ctx, cdb *store.ChainDatabase) {
 					fail("c17/proof-forged", fmt.Sprintf("altered value %x accepted for key %x", v2, e.k))
 				}
 				c.Count("oracle:proof-altered-rejected")
-				// NOTE (reported, not a failure): VerifyProof does not re-hash what the reader returns;
-				// a reader that is not content-addressed makes it return the altered value.
+				// a reader that is NOT content-addressed answers the ORIGINAL hash of the last node with the
+				// altered blob: since /repo 18a0e58 VerifyProof itself must reject it (before that fix it
+				// returned the altered value: LemoProofs.C17.proof_forged_legacy)
 				bad, _ := store.NewMemDatabase()
 				for _, b := range rec.seen[:len(rec.seen)-1] {
 					bad.Put(0, crypto.Keccak256(b), b)
 				}
 				bad.Put(0, crypto.Keccak256(rec.seen[len(rec.seen)-1]), last)
 				if v3, err3, _ := trie.VerifyProof(root, rawKey(e.k), bad); err3 == nil && v3 != nil && !bytes.Equal(v3, e.v) {
-					c.Count("note:VerifyProof-trusts-reader-to-be-content-addressed")
+					fail("c17/proof-forged", fmt.Sprintf("altered value %x accepted for key %x from a reader that is not content-addressed", v3, e.k))
+				} else if err3 != nil {
+					c.Count("oracle:proof-altered-raw-reader-rejected-by-VerifyProof")
+				}
+				// and an interior node: the root answered with the root blob of another trie
+				if len(rec.seen) > 1 {
+					bad2, _ := store.NewMemDatabase()
+					for _, b := range rec.seen {
+						bad2.Put(0, crypto.Keccak256(b), b)
+					}
+					bad2.Put(0, crypto.Keccak256(rec.seen[0]), rec.seen[1])
+					if v4, err4, _ := trie.VerifyProof(root, rawKey(e.k), bad2); err4 == nil && v4 != nil {
+						fail("c17/proof-forged", fmt.Sprintf("a proof whose root node is another node was accepted for key %x: %x", e.k, v4))
+					} else {
+						c.Count("oracle:proof-swapped-root-rejected")
+					}
 				}
 			}
 			// absent key: no value, no error
